@@ -129,6 +129,8 @@ def _run_unit(unit):
     d = r.pack()
     for v in d['violations']:
         v.setdefault('unit', check)
+        # the whole unit (a deterministic sequence of cases in one process) is the fallback replay for violations that depend on what ran before
+        v.setdefault('unit_case', case)
     d['wall'] = time.time() - t0
     d['check'] = check
     return d
@@ -211,7 +213,9 @@ def run_property(pid, tier, seed, jobs=None, max_report=40):
     violations = []
     state_keys = set()
     ctx = mp.get_context('fork')
-    with ctx.Pool(jobs, initializer=_worker_init, initargs=(pid,)) as pool:
+    # one fresh fork of this (clean) process per unit: state that PGPy keeps at module or class level cannot travel from one unit to another,
+    # so every unit is a deterministic function of (check, case) and can be replayed alone in a fresh process
+    with ctx.Pool(jobs, initializer=_worker_init, initargs=(pid,), maxtasksperchild=1) as pool:
         for d in pool.imap_unordered(_run_unit, units, chunksize=1):
             if d['state_keys'] is not None:
                 before = len(state_keys)
@@ -275,11 +279,34 @@ def run_property(pid, tier, seed, jobs=None, max_report=40):
         from concurrent.futures import ThreadPoolExecutor
         with ThreadPoolExecutor(8) as ex:
             oks = list(ex.map(lambda t: confirm(pid, t[0], t[2]['tags'], t[1]), pending))
+        retry = []
         for t, ok in zip(pending, oks):
             if ok:
                 unknown_lines.append(t)
+            elif t[2].get('unit_case') is not None and t[2]['unit_case'] != t[2]['case']:
+                retry.append(t)
             else:
                 nondet.append((t[0], 'violation did not reproduce identically twice in a fresh process'))
+        # history-dependent violations: the minimal case alone does not show them, the deterministic sequence of the whole unit does
+        # (state carried from one operation to the next inside one process is exactly what an operation-sequence search is for)
+        hist = []
+        for path, check, v in retry:
+            upath = path[:-5] + '.unit.json'
+            with open(upath, 'w') as f:
+                json.dump({'property': pid, 'check': check, 'unit': v.get('unit', check), 'tags': v['tags'], 'case': v['unit_case'], 'detail': v['detail'],
+                           'note': 'reproduces only within the sequence of cases of its unit (depends on state left by earlier operations in the same process); '
+                                   'the minimal case alone is in ' + os.path.basename(path),
+                           'replay': '%s %s/run.py %s --replay %s' % (PY, VERIF, pid, upath)}, f, indent=1, default=str)
+            hist.append((upath, check, v, path))
+        if hist:
+            with ThreadPoolExecutor(8) as ex:
+                oks = list(ex.map(lambda t: confirm(pid, t[0], t[2]['tags'], t[1]), hist))
+            for t, ok in zip(hist, oks):
+                if ok:
+                    t[2]['detail'] = '[history-dependent: shown by the whole unit sequence, not by the single case] ' + t[2]['detail']
+                    unknown_lines.append(t[:3])
+                else:
+                    nondet.append((t[3], 'violation did not reproduce identically twice in a fresh process (neither alone nor within its unit)'))
     wall = time.time() - t0
     n_out = len([o for o in outcomes if outcomes[o]])
     cov = {
